@@ -157,7 +157,7 @@ def parse_result(lines):
 class Worker:
     """one 'nsim serve' process; run(plan) -> Result"""
 
-    def __init__(self, variant='asan', wall_timeout=60.0):
+    def __init__(self, variant='asan', wall_timeout=40.0):
         self.variant = variant; self.wall_timeout = wall_timeout; self.p = None
 
     def start(self):
@@ -252,6 +252,8 @@ def generic_crash_violations(prop, res, sanitizer_counts=True):
         f = res.of('FATAL')
         msg = f[-1].rest if f else ''
         v.append(Violation(prop, 'fatal', 'driver called fatal(): ' + msg[:200], '%s/fatal/%s' % (prop, re.sub(r'[^A-Za-z]+', '-', msg[:40]))))
+    elif kind == 'exit' and code == 76:
+        v.append(Violation(prop, 'hang', 'run did not finish within the wall-clock limit (driver spinning outside the interpreter)', '%s/hang/wallclock' % prop))
     elif kind == 'exit' and code == 75:
         h = res.of('HANG')
         v.append(Violation(prop, 'hang', 'simulated budget exhausted: ' + (h[-1].rest if h else ''), '%s/hang' % prop))
@@ -421,11 +423,18 @@ def run_check(propmod, prop, tier, verif_seed, n_runs, variant='asan', jobs=None
     ctx = multiprocessing.get_context('fork')
     results = []
     with ctx.Pool(jobs, initializer=_init, initargs=(propmod.__name__, variant)) as pool:
+        hangs = 0
         for r in pool.imap_unordered(_task, tasks, chunksize=4):
             results.append(r)
+            if r.get('exit') in (('exit', 76), ('wall-timeout', 0), ['exit', 76], ['wall-timeout', 0]) and r.get('mode') != 'det':
+                hangs += 1
+                if hangs >= 3:
+                    sys.stderr.write('batch cut short: %d runs hit the wall-clock limit\n' % hangs)
+                    pool.terminate()
+                    break
 
     main = {r['i']: r for r in results if r.get('mode') != 'det'}
-    det = [r for r in results if r.get('mode') == 'det']
+    det = [r for r in results if r.get('mode') == 'det' and r['i'] in main]
     errors = [r for r in results if 'error' in r]
     if errors:
         sys.stderr.write(errors[0]['error'])
